@@ -114,6 +114,12 @@ def transforms_for(slot, side, value, present=True):
     refs = [value] if present else []
     if slot == "hide":
         return {dim: {"elements": {str(value): {"hide": True}} if present else {}}}
+    if slot in ("hide_kalias", "hide_ksvid"):
+        # element transforms that declare what their keys are
+        d = {"key": "alias" if slot == "hide_kalias" else "subvar_id"}
+        if present:
+            d[str(value)] = {"hide": True}
+        return {dim: {"elements": d}}
     if slot == "rename":
         return {dim: {"elements": {str(value): {"name": "RENAMED"}} if present else {}}}
     if slot == "explicit":
@@ -208,16 +214,26 @@ def run_check(tier, seed, t0):
             v = ref["v"]
             item, rule = (ref["item"], ref["rule"]) if kind == "mr" else (ref["plain"], ref["plainrule"])
             value = py_value(v)
-            for slot, bd in [(sl, False) for sl in SLOTS] + (
+            for slot, bd in [(sl, False) for sl in SLOTS + ["hide_kalias", "hide_ksvid"]] + (
                     [("hide", True), ("rename", True)] if resp_bd is not None else []):
-                if slot in ("hide", "rename"):
+                if slot in ("hide", "rename", "hide_kalias", "hide_ksvid"):
                     if v["t"] != "s":
                         continue      # JSON object keys are strings
+                if slot == "hide_kalias":
+                    item, rule = ref["kalias"], 8
+                elif slot == "hide_ksvid":
+                    item, rule = ref["ksvid"], 9
+                else:
+                    item, rule = ((ref["item"], ref["rule"]) if kind == "mr"
+                                  else (ref["plain"], ref["plainrule"]))
                 got = out_for(slot, value, bd=bd)
                 if item:
-                    want = out_for(slot, sch["alias"][item - 1], bd=bd)
+                    # the alias spelling in the plain slot is the reference output
+                    want = out_for("hide" if slot.startswith("hide_k") else slot,
+                                   sch["alias"][item - 1], bd=bd)
                 else:
-                    want = out_for(slot, None, present=False, bd=bd)
+                    want = out_for("hide" if slot.startswith("hide_k") else slot, None,
+                                   present=False, bd=bd)
                 evals += 1
                 n_pairs += 1
                 feats["rule%d" % rule] = feats.get("rule%d" % rule, 0) + 1
